@@ -413,6 +413,46 @@ pub unsafe extern "C" fn renameat(fd1: c_int, from: *const c_char, fd2: c_int, t
     }
     unsafe { libc::syscall(libc::SYS_renameat, fd1, from, fd2, to) as c_int }
 }
+/// A change made through a descriptor (permissions, length, timestamps): recorded under the
+/// name the descriptor was opened with, as seen from the simulated world.
+fn log_fd_change(fd: c_int) {
+    if !observing() {
+        return;
+    }
+    let path = as_harness(|| {
+        let real = std::fs::read_link(format!("/proc/self/fd/{fd}")).ok()?;
+        let cwd = std::env::current_dir().ok()?;
+        let s = real.to_string_lossy().to_string();
+        let c = cwd.to_string_lossy().to_string();
+        Some(match s.strip_prefix(&format!("{c}/")) {
+            Some(rest) => format!("/proc/self/cwd/{rest}"),
+            None => s,
+        })
+    });
+    if let Some(p) = path {
+        unsafe { log_parts(&[b"W ", p.as_bytes()]) };
+    }
+}
+#[unsafe(no_mangle)]
+pub unsafe extern "C" fn fchmod(fd: c_int, mode: mode_t) -> c_int {
+    log_fd_change(fd);
+    unsafe { libc::syscall(libc::SYS_fchmod, fd, mode as c_uint) as c_int }
+}
+#[unsafe(no_mangle)]
+pub unsafe extern "C" fn ftruncate(fd: c_int, len: libc::off_t) -> c_int {
+    log_fd_change(fd);
+    unsafe { libc::syscall(libc::SYS_ftruncate, fd, len) as c_int }
+}
+#[unsafe(no_mangle)]
+pub unsafe extern "C" fn ftruncate64(fd: c_int, len: libc::off64_t) -> c_int {
+    log_fd_change(fd);
+    unsafe { libc::syscall(libc::SYS_ftruncate, fd, len) as c_int }
+}
+#[unsafe(no_mangle)]
+pub unsafe extern "C" fn futimens(fd: c_int, times: *const libc::timespec) -> c_int {
+    log_fd_change(fd);
+    unsafe { libc::syscall(libc::SYS_utimensat, fd, std::ptr::null::<c_char>(), times, 0) as c_int }
+}
 #[unsafe(no_mangle)]
 pub unsafe extern "C" fn renameat2(fd1: c_int, from: *const c_char, fd2: c_int, to: *const c_char, flags: c_uint) -> c_int {
     if observing() {
